@@ -417,7 +417,7 @@ pub fn alphabet_sources() -> Sources {
         tags: vec!["allow.skipped".into()],
         bg: vec![StepKind::Matched],
         scenarios: vec![s(&[])],
-        ..Default::default()
+        rules: vec![RuleSpec { tags: vec![], bg: vec![], scenarios: vec![s(&[])] }],
     };
     Sources::from_features(vec![f1.parse(0), f2.parse(1)])
 }
@@ -442,12 +442,14 @@ pub fn alphabet() -> (Vec<In>, Vec<In>) {
             core.push(In::Ev(e.clone()));
         }
     }
-    let ctxs: [(&str, Option<&str>, &str, &str); 5] = [
+    let ctxs: [(&str, Option<&str>, &str, &str); 6] = [
         ("F1", None, "F1.S1", "bg F1 1"),
         ("F1", None, "F1.S2", "bg F1 1"),
         ("F1", Some("F1.R1"), "F1.R1.S1", "bg F1 1"),
         ("F1", Some("F1.R2"), "F1.R2.S1", "bg F1 1"),
         ("F2", None, "F2.S1", "bg F2 1"),
+        // feature tagged, scenario inside an untagged rule
+        ("F2", Some("F2.R1"), "F2.R1.S1", "bg F2 1"),
     ];
     for (ci, (f, r, s, bg)) in ctxs.iter().enumerate() {
         let step = format!("step {s} 1");
